@@ -193,9 +193,21 @@ def structural(d1, d2, fused, pred, rec, wit):
         order = sorted(s2, key=lambda s: len(cands[s.id]))
         sol = {}
 
+        def deps_ok():
+            im = {x.id: sol[x.id].id for x in s2}
+            return all(set(sol[x.id].depends_on) == {im.get(d, d) for d in x.depends_on} for x in s2)
+
+        with_deps = [True]
+        budget = [20000]
+
         def bt(i, rho, used):
             if i == len(order):
-                return rho
+                # (statements with the same text are interchangeable for the renaming: among those assignments
+                # the one that also maps the dependencies is the correspondence)
+                return rho if (not with_deps[0] or deps_ok()) else None
+            budget[0] -= 1
+            if budget[0] < 0:
+                return None
             s = order[i]
             for r in cands[s.id]:
                 if r.id in used:
@@ -214,6 +226,17 @@ def structural(d1, d2, fused, pred, rec, wit):
                     return res
             return None
         rho = bt(0, {}, set())
+        if rho is None:
+            # no correspondence that maps names AND dependencies: look for one that maps the names at least, to
+            # say which of the two went wrong
+            exhausted = budget[0] < 0
+            with_deps[0] = False
+            budget[0] = 20000
+            rho = bt(0, {}, set())
+            if exhausted and rho is not None:
+                # (the search with dependencies ran out of budget: undecided, not a violation)
+                rec.count("correspondence_search_out_of_budget")
+                continue
         if rho is None:
             # find out why: is it a half-renamed loop counter?
             for s in s2:
